@@ -42,7 +42,7 @@ from ..apimodel import build_sparse  # noqa: E402
 
 
 def values_for(ref, top, tier):
-    vals, _ = V.Values(ref, tier).enumerate(top, 10 if tier == 'quick' else 24)
+    vals, _ = V.Values(ref, tier).enumerate(top, 10 if tier == 'quick' else 60)
     # unions nested: add explicit arm switches without value (default arm values)
     return vals
 
